@@ -133,7 +133,8 @@ Inductive reason :=
 | RsLocalHard       (* LocalNotification Cease/Hard Reset *)
 | RsLocalOther      (* LocalNotification, not Cease (OPEN / UPDATE / FSM error message) *)
 | RsHold            (* HoldTimerExpired *)
-| RsOther.          (* FsmError, AdminShutdown *)
+| RsOther           (* FsmError, AdminShutdown *)
+| RsRemoteOther.    (* RemoteNotification that is not a Cease (OPEN / UPDATE / FSM error message sent by the peer) *)
 
 Record session := {
   s_gen : N;
@@ -178,7 +179,15 @@ Definition gr_applies (r : reason) (nbit : bool) : bool :=
   | RsLocalOther => false
   | RsHold => nbit
   | RsOther => false
+  | RsRemoteOther => false     (* only a Cease is eligible, received or sent (fix C10-8) *)
   end.
+
+(* the reason class of a NOTIFICATION (code, subcode) sent or received *)
+Definition reason_of_notification (local : bool) (code sub : N) : reason :=
+  if code =? 6 then
+    if sub =? 9 then (if local then RsLocalHard else RsRemoteHard)
+    else (if local then RsLocalCease else RsRemoteCease)
+  else (if local then RsLocalOther else RsRemoteOther).
 
 Definition delete_fams (outs : list groutput) : list fam :=
   flat_map (fun o => match o with GDeleteStaleRoutes l => l | _ => [] end) outs.
